@@ -63,6 +63,8 @@ func recovered(f func()) {
 func runAgent(in []int64) ([]int64, []int64) {
 	b := decBind(in)
 	sc := agentcache.NewDefaultMockSchedulerCache("volcano-agent")
+	// RemoveNode talks to the conflict-aware binder (RemoveBindRecord), which the mock leaves nil
+	sc.ConflictAwareBinder = agentcache.NewConflictAwareBinder(sc, nil)
 	for _, n := range b.Nodes {
 		addAgentNode(sc, n)
 	}
@@ -99,15 +101,31 @@ func runAgent(in []int64) ([]int64, []int64) {
 		index[ctxs[i]] = i
 	}
 	var evMu sync.Mutex
+	removedWhileHolding := map[int64]bool{}
+	forgotten := map[[2]int64]bool{} // (pod, node) pairs the cache dropped with a removed node
+	forgot := false
 	step := func(i int) error {
 		it := b.Items[i]
 		switch it.Kind {
 		case itBind:
 			return sc.AddBindTask(ctxs[i])
 		case itRemoveNode:
+			if ni := agentNodeInfo(sc, sched.NodeName(it.Task)); ni != nil && len(ni.Tasks) > 0 {
+				evMu.Lock()
+				removedWhileHolding[it.Task] = true
+				for k := range ni.Tasks {
+					forgotten[[2]int64{sched.ParseID(string(k)), it.Task}] = true
+				}
+				evMu.Unlock()
+			}
 			recovered(func() { _ = sc.RemoveNode(sched.NodeName(it.Task)) })
 		case itNode:
 			o := nodeObject(it.Node)
+			evMu.Lock()
+			if removedWhileHolding[it.Node.ID] {
+				forgot = true // the mechanism of SigAgentForgets: a node that held tasks was removed and comes back
+			}
+			evMu.Unlock()
 			recovered(func() { _ = sc.AddOrUpdateNode(o) })
 		case itTerminating:
 			evMu.Lock()
@@ -186,6 +204,7 @@ func runAgent(in []int64) ([]int64, []int64) {
 			panic(fmt.Sprintf("refused call %d left its task in status %v", i, ctxs[i].SchedCtx.Task.Status))
 		}
 	}
+	placed := agentPlaced(b, order, errs)
 	got = append(got, -112)
 	nids := sched.SortedIDs(sc.Nodes, func(n string) int64 { return sched.ParseID(n) })
 	got = append(got, int64(len(nids)))
@@ -193,14 +212,118 @@ func runAgent(in []int64) ([]int64, []int64) {
 	for _, n := range nids {
 		ni := agentNodeInfo(sc, sched.NodeName(n))
 		got = append(got, sched.EncNode(ni, n)...)
-		// (the agent stream may bind one pod to several nodes through separate TaskInfos: every
-		// accepted call is a copy on its node, so what the nodes hold already is every reservation)
-		tids := sched.SortedIDs(ni.Tasks, func(u api.TaskID) int64 { return sched.ParseID(string(u)) })
+		// what the node holds TOGETHER WITH what is placed on it by everything delivered so far: the
+		// bound pods delivered (and not deleted) that name the node, and every accepted AddBindTask
+		// aimed at it whose pod has not been deleted (the agent stream may bind one pod to several
+		// nodes through separate TaskInfos: a reservation is a (pod, node) pair)
+		tids := mergeHeldPairs(n, sched.SortedIDs(ni.Tasks, func(u api.TaskID) int64 { return sched.ParseID(string(u)) }), placed)
 		held = append(held, n, int64(len(tids)))
 		held = append(held, tids...)
 	}
 	lastLaw = append(replay.finalSpecs().enc(), held...)
+	lastSig, lastLawExcused = "", nil
+	if forgot {
+		// the finding explains exactly the pods dropped with the removed node: law 112 on the full
+		// held sets carries the sig, and the same law is emitted UNSIGNED (selector 116) on the held
+		// sets without those pods -- any other overcommit in this history still fails it
+		lastSig = SigAgentForgets
+		rest := map[[2]int64]bool{}
+		for k := range placed {
+			if !forgotten[k] {
+				rest[k] = true
+			}
+		}
+		exc := []int64{int64(len(nids))}
+		for _, n := range nids {
+			ni := agentNodeInfo(sc, sched.NodeName(n))
+			tids := mergeHeldPairs(n, sched.SortedIDs(ni.Tasks, func(u api.TaskID) int64 { return sched.ParseID(string(u)) }), rest)
+			exc = append(exc, n, int64(len(tids)))
+			exc = append(exc, tids...)
+		}
+		lastLawExcused = append(replay.finalSpecs().enc(), exc...)
+	}
 	return replay.enc(), got
+}
+
+// SigAgentForgets (known-findings.json): the agent scheduler cache's RemoveNode deletes the entry
+// together with the tasks it holds; when the node comes back it starts from an empty NodeInfo and the
+// bind admission admits pods into room that is taken.  Attached to law 112 ONLY for histories in which
+// the real cache removed a node that held at least one task and that node was delivered again.
+const SigAgentForgets = "C02-agent-remove-node-forgets-held-tasks"
+
+// agentPlaced: (pod, node) pairs placed by what has been delivered: bound pods of the spec and of
+// pod-add events, accepted calls; a delete event removes the pod everywhere.
+func agentPlaced(b bindCase, order []int, errs []error) map[[2]int64]bool {
+	res := map[[2]int64]bool{}
+	for _, t := range b.Tasks {
+		if t.Node != 0 && t.Status != sched.SSucceeded && t.Status != sched.SFailed {
+			res[[2]int64{t.ID, t.Node}] = true
+		}
+	}
+	for _, i := range order {
+		it := b.Items[i]
+		switch it.Kind {
+		case itBind:
+			if errs[i] == nil {
+				res[[2]int64{it.Bind[1], it.Bind[2]}] = true
+			}
+		case itPodAdd:
+			if it.Pod.Node != 0 {
+				res[[2]int64{it.Pod.ID, it.Pod.Node}] = true
+			}
+		case itDelete:
+			for k := range res {
+				if k[0] == it.Task {
+					delete(res, k)
+				}
+			}
+		}
+	}
+	return res
+}
+
+func mergeHeldPairs(nid int64, tids []int64, placed map[[2]int64]bool) []int64 {
+	seen := map[int64]bool{}
+	for _, t := range tids {
+		seen[t] = true
+	}
+	out := append([]int64{}, tids...)
+	for k := range placed {
+		if k[1] == nid && !seen[k[0]] {
+			seen[k[0]] = true
+			out = append(out, k[0])
+		}
+	}
+	sort.Slice(out, func(i, j int) bool { return out[i] < out[j] })
+	return out
+}
+
+// readdCase (directed, second audit N2): a node that holds a running pod (and possibly a bind in
+// flight) is removed and delivered again with the same allocatable; a pod that does not fit beside
+// what the node really holds is then aimed at it.
+func readdCase(r *vh.Rng) bindCase {
+	var b bindCase
+	cpu := int64(r.Range(2, 6)) * 1000
+	b.Nodes = []sched.NodeSpec{{ID: 1, Has: true, CPU: cpu, Mem: 32 << 20, Pods: 20}}
+	p := int64(r.Range(1, int(cpu/500)-1)) * 500
+	b.Tasks = []sched.TaskSpec{{ID: 1, Job: 1, Role: 1, CPU: p, Mem: 1 << 20, Status: sched.SRunning, Node: 1}}
+	q := cpu - p + 500
+	if q > cpu {
+		q = cpu
+	}
+	b.Tasks = append(b.Tasks, sched.TaskSpec{ID: 2, Job: 1, Role: 1, CPU: q, Mem: 1 << 20, Status: sched.SPending})
+	b.Tasks = append(b.Tasks, sched.TaskSpec{ID: 3, Job: 1, Role: 1, CPU: 250, Mem: 1 << 20, Status: sched.SPending})
+	b.Jobs = []sched.JobSpec{{ID: 1, Queue: 1}}
+	b.Workers = int64(r.Range(1, 3))
+	b.Exact = true
+	if r.Chance(1, 2) {
+		b.Items = append(b.Items, item{Kind: itBind, Bind: [3]int64{1, 3, 1}}) // a bind in flight
+	}
+	b.Items = append(b.Items, item{Kind: itRemoveNode, Task: 1}, item{Kind: itNode, Node: b.Nodes[0]}, item{Kind: itBind, Bind: [3]int64{1, 2, 1}})
+	// a pod as large as the whole node: refused whatever the cache forgot
+	b.Tasks = append(b.Tasks, sched.TaskSpec{ID: 4, Job: 1, Role: 1, CPU: cpu, Mem: 1 << 20, Status: sched.SPending})
+	b.Items = append(b.Items, item{Kind: itBind, Bind: [3]int64{1, 4, 1}})
+	return b
 }
 
 func genAgentCase(r *vh.Rng) (bindCase, bool) {
@@ -294,6 +417,12 @@ func genAgentCase(r *vh.Rng) (bindCase, bool) {
 }
 
 func genAgent(rng *vh.Rng, n int, emit func(id string, sel int, in []int64, kind string, nontrivial bool, desc any)) {
+	rr := rng.Fork()
+	for i := 0; i < max(3, n/60); i++ {
+		b := readdCase(rr.Fork())
+		emit(fmt.Sprintf("agent-readd-%d", i), 3, b.enc(), "bind/agent/readd", true,
+			map[string]any{"directed": "node holding a pod removed and re-added, then a bind that does not fit beside the pod", "items": len(b.Items)})
+	}
 	qr := rng.Fork()
 	for i := 0; i < max(3, n/60); i++ {
 		b := podsFullCase(qr.Fork(), true)
